@@ -341,8 +341,9 @@ class Peer:
         self.stream.append([])
         return len(self.stream) - 1
 
-    def write(self, conn, thread, first, data, lost=False):
-        """`lost`: what the peer produces while this request is being written never arrives"""
+    def write(self, conn, thread, first, data, lost=False, cut=None):
+        """`lost`: what the peer produces while this request is being written never arrives; `cut` = k: only the first k bytes of
+        the reply arrive (the rest never does)"""
         self.wire.append([thread, 1 if first else 0, conn, list(data)])
         pend = self.pending[conn]
         pend += list(data)
@@ -356,7 +357,7 @@ class Peer:
             frame = pend[:6 + ln]
             del pend[:6 + ln]
             if not lost:
-                self.stream[conn] += reply_to(frame)
+                self.stream[conn] += reply_to(frame)[:cut] if cut else reply_to(frame)
 
     def read(self, conn, n):
         st = self.stream[conn]
@@ -375,6 +376,7 @@ class Env:
         self.lats = lats            # thread index -> latency of the request it is executing
         self.fresh = {}
         self.lost = {}              # thread index -> how many transmissions of its current request get no answer
+        self.cut = {}               # thread index -> the reply to its current request arrives cut after this many bytes
         self.sent = {}              # thread index -> transmissions of its current request so far
         self.clock = 1000.0
         self.fail = fail            # which create_connection calls are refused: 'all' or a collection of indices
@@ -400,9 +402,10 @@ class FakeSocket:
         env.sched.yield_('send1')
         lost = env.sent.get(i, 0) < env.lost.get(i, 0)         # the peer does not answer this transmission
         env.sent[i] = env.sent.get(i, 0) + 1
-        env.peer.write(self.conn, i, True, data[:7], lost)
+        cut = env.cut.get(i) or None
+        env.peer.write(self.conn, i, True, data[:7], lost, cut)
         env.sched.yield_('send2')
-        env.peer.write(self.conn, i, False, data[7:], lost)
+        env.peer.write(self.conn, i, False, data[7:], lost, cut)
         env.fresh[i] = True
         return len(data)
 
@@ -627,6 +630,7 @@ def run_schedule(threads, chooser, connected=True):
                 lats[i] = r['lat']
                 env.lost[i] = 10 ** 6 if r.get('bcast') else int(r.get('lost') or 0)   # no unit answers a broadcast
                 env.sent[i] = 0
+                env.cut[i] = int(r.get('cut') or 0)
                 req = ReadHoldingRegistersRequest(r['addr'], r['count'], unit=r['unit'])
                 marks.append((i, k, 'begin', len(sched.events)))
                 try:
@@ -819,6 +823,12 @@ def check_property(rep, case, run, expected, threads):
                 if r[1] != {'bcast': 1}:
                     rep.violation('a broadcaster did not get the broadcast marker', case, thread=i, k=k, request=q,
                                   got=r[1])
+                    ok = False
+                continue
+            if q.get('cut'):                                         # its reply arrived incomplete
+                if r[1] != {'err': 'modbusio'}:
+                    rep.violation('a caller whose reply arrived incomplete did not get its error object', case,
+                                  thread=i, k=k, request=q, got=r[1])
                     ok = False
                 continue
             if int(q.get('lost') or 0) >= attempts_of(case):       # none of its transmissions was answered
@@ -1044,9 +1054,19 @@ def process_batch(ctx, rep, scope, batch):
     """batch: [(threads, connected, run, how)]: model comparison + property check"""
     if not batch:
         return
-    ans = ctx.driver.query([model_op(scope, th, run.taken, conn) for th, conn, run, _ in batch])
+    def for_model(th):
+        # a reply cut short is not in the schedule model (it has replies that never arrive): such runs are checked against the
+        # property directly; the model is only asked what the replies to the requests are
+        return [[dict({k: v for k, v in r.items() if k != 'cut'}, lost=1) if r.get('cut') else r for r in t] for t in th]
+    ans = ctx.driver.query([model_op(scope, for_model(th), run.taken, conn) for th, conn, run, _ in batch])
     for (th, conn, run, how), a in zip(batch, ans):
         w = world(conn)
+        if any(r.get('cut') for t in th for r in t):
+            case = {'kind': 'schedule', 'connected': w['connected'], 'fail': w['fail'], 'retry': w.get('retry'),
+                    'threads': th, 'sched': run.taken}
+            rep.case((th, w, run.taken), nontrivial=True, tag='%s:cut-reply:%dx%s' % (how, len(th), max(len(x) for x in th)))
+            check_property(rep, case, run, a['expected'], th)
+            continue
         case = {'kind': 'schedule', 'connected': w['connected'], 'fail': w['fail'], 'retry': w.get('retry'),
                 'threads': th, 'sched': run.taken}
         parked = any(op == 'acquire' and t not in en for en, ops in run.points for t, op in ops.items())
@@ -1195,6 +1215,32 @@ def run(ctx):
                                             if nlost else '')] += 1
     flush()
     rep.exhaustive = exhaustive and not enough()
+
+    # 1b. a reply that arrives INCOMPLETE (its first 8..12 bytes, then nothing): the caller gets its error object, the client
+    #     drops the connection, and the callers queued behind it are served on a new one.  Not in the schedule model: checked
+    #     against the property only, every schedule of 2 threads, random ones of 3.
+    for shape, conn in (((1, 1), True), ((2, 1), True), ((1, 2), True), ((2, 2), True), ((1, 1), False)):
+        if enough() or left() < ctx.scale(10, 200):
+            break
+        th = gen_threads(rng, shape, maxlat=1)
+        i = rng.randrange(len(th))
+        k = rng.randrange(len(th[i]))
+        th[i][k] = dict(th[i][k], cut=rng.choice([8, 9, 10]), count=th[i][k]['count'] if 1 <= th[i][k]['count'] <= 125 else 2)   # (a normal reply: 11+ bytes)
+        status = {}
+        for r in explore(th, 4000, lambda: left() + 12 - ctx.scale(6, 200), False, conn, status):
+            add(th, conn, r, 'dfs')
+            if enough():
+                break
+        flush()
+    for _ in range(ctx.scale(40, 400)):
+        if enough() or left() < ctx.scale(8, 190):
+            break
+        th = gen_threads(rng, tuple(rng.randrange(1, 3) for _ in range(3)), maxlat=1)
+        i = rng.randrange(len(th))
+        k = rng.randrange(len(th[i]))
+        th[i][k] = dict(th[i][k], cut=rng.choice([8, 9, 10]), count=th[i][k]['count'] if 1 <= th[i][k]['count'] <= 125 else 2)   # (a normal reply: 11+ bytes)
+        add(th, True, random_run(th, rng, True), 'random')
+    flush()
 
     # 2. random schedules, 2..4 threads x 1..3 transactions
     nrand = ctx.scale(250, 3000)
